@@ -147,6 +147,32 @@ SOFT_KEYWORDS = [
     "SELECT t.prior, t.current, t.row, t.rows, t.range FROM t",
 ]
 
+# Dialect-specific vocabulary (date-part abbreviations, unit names, function-ish words) placed in generic positions. A
+# word that one dialect's import adds to a table shared with other dialects changes how THEY parse these.
+VOCAB_WORDS = ["N", "QQ", "SS", "TZ", "WW", "MCS", "ISOWK", "ISODOW", "ISOWEEK", "DW", "DY", "MM", "HH", "MI", "NS", "MS", "US", "YY", "YYYY", "WK", "DOY", "DOW",
+               "EPOCH", "D", "M", "Y", "H", "S", "Q", "W", "DAYOFWEEK", "WEEKDAY", "MICROSEC", "NANOSEC", "MILLENNIUM", "DECADE", "CENTURY", "TIMEZONE_HOUR",
+               "PRIOR", "LEVEL", "SAMPLE", "TOP", "QUALIFY", "PIVOT", "FINAL", "GLOBAL", "ILIKE", "DIV", "XOR", "SEMI", "ANTI", "ASOF", "POSITIONAL"]
+VOCAB_TEMPLATES = [
+    "SELECT a::INTERVAL {w} FROM t",
+    "SELECT CAST(a AS INTERVAL) {w} FROM t",
+    "SELECT d + INTERVAL '1' {w} FROM t",
+    "SELECT DATE_TRUNC('{w}', d), EXTRACT({w} FROM d) FROM t",
+    "SELECT DATEADD({w}, 1, d), DATEDIFF({w}, d1, d2) FROM t",
+    "SELECT {w} FROM t",
+    "SELECT a AS {w}, t.{w} FROM t",
+    "SELECT {w}(a, 1) FROM t",
+    "SELECT a {w} FROM t",
+    "SELECT * FROM t {w}",
+]
+
+
+def vocab_statement(rng):
+    w = rng.choice(VOCAB_WORDS)
+    if rng.random() < 0.5:
+        w = w.lower()
+    return rng.choice(VOCAB_TEMPLATES).format(w=w)
+
+
 FAILING = [
     (None, "SELECT * FROM"),
     (None, "SELECT 'unterminated"),
